@@ -59,6 +59,9 @@ struct JSON {
         ~JSONParser()                             = delete;
 
         static ValueT Parse(Stream_T &stream, const Char_T *content, SizeT length) {
+            // What an earlier, rejected text left in the stream would be taken for the start of the next string.
+            stream.Clear();
+
             if (length != 0) {
                 SizeT offset = 0;
                 StringUtils::TrimLeft(content, offset, length);
